@@ -1110,6 +1110,12 @@ func componentOf(v ssa.Value, depth int) string {
 			n, _ := namedOf(callee.Signature.Recv().Type())
 			return n
 		}
+		// a helper that hands one of its arguments back unchanged (e.g. one that also logs it)
+		if callee := x.Call.StaticCallee(); callee != nil && callee.Pkg != nil && strings.HasPrefix(callee.Pkg.Pkg.Path(), modPath) {
+			if k := passThroughParam(callee); k >= 0 && k < len(x.Call.Args) {
+				return componentOf(x.Call.Args[k], depth+1)
+			}
+		}
 	case *ssa.UnOp:
 		if x.Op == token.MUL {
 			if fa, ok := x.X.(*ssa.FieldAddr); ok {
@@ -1241,4 +1247,37 @@ func ruleK6(c *Ctx) {
 		})
 		c.check(n >= 1, "K6", "ExpToString|number formatting found", c.L.Pos(fd.Pos()), fmt.Sprintf("%d", n))
 	}
+}
+
+
+// passThroughParam: the index of the parameter that every return of f hands back as its single
+// result, or −1.
+func passThroughParam(f *ssa.Function) int {
+	idx := -1
+	for _, b := range f.Blocks {
+		for _, in := range b.Instrs {
+			r, ok := in.(*ssa.Return)
+			if !ok {
+				continue
+			}
+			if len(r.Results) != 1 {
+				return -1
+			}
+			prm, ok := r.Results[0].(*ssa.Parameter)
+			if !ok {
+				return -1
+			}
+			k := -1
+			for i, pp := range f.Params {
+				if pp == prm {
+					k = i
+				}
+			}
+			if k < 0 || (idx >= 0 && idx != k) {
+				return -1
+			}
+			idx = k
+		}
+	}
+	return idx
 }
